@@ -703,6 +703,10 @@ func runInSubproc(sp *subproc, self, id string, c json.RawMessage) (Result, *sub
 				kind = "fatal-out-of-memory"
 			}
 			frame := TopFrame([]byte(stderr))
+			if kind == "fatal-stack-overflow" {
+				// where the stack limit is hit is arbitrary: the frame is not part of the signature
+				frame = "recursion"
+			}
 			return Result{
 				Crash: kind,
 				Viols: []Viol{{Sig: fmt.Sprintf("%s/crash/%s%s:%s", id, crashSite(id, c), kind, frame), What: fmt.Sprintf("worker process died (%s) in %s: %s", kind, frame, trunc(firstLine(stderr), 200))}},
